@@ -62,8 +62,16 @@ func (r *ReduceMax) Apply(inputs []tensor.Tensor) ([]tensor.Tensor, error) {
 	}
 
 	axes := make([]int, len(r.axes))
+	seen := make(map[int]bool, len(r.axes))
+
 	for i, axis := range r.axes {
 		axes[i] = ops.ConvertNegativeAxis(axis, nDims)
+
+		if seen[axes[i]] {
+			return nil, ops.ErrInvalidInput("axes cannot have duplicate entries", r)
+		}
+
+		seen[axes[i]] = true
 	}
 
 	out, err := input.Max(axes...)
